@@ -6,6 +6,7 @@ working tree in ``$XLMC_REPO`` (default ``/repo``), never an installed copy.
 import importlib
 import math
 import os
+import signal
 import sys
 
 REPO = os.path.realpath(os.environ.get('XLMC_REPO', '/repo'))
@@ -75,7 +76,7 @@ def fnum(x):
         try:
             return repr(float(x))
         except OverflowError:
-            return 'big:%d' % x
+            return 'inf' if x > 0 else '-inf'
     if isinstance(x, float):
         if x != x:
             return 'nan'
@@ -153,9 +154,42 @@ def exc_obs(exc):
     return 'raise:%s' % type(inner).__name__
 
 
+class CaseTimeout(BaseException):
+    """Raised by the SIGALRM handler; BaseException so that the library's
+    ``except Exception`` wrappers do not swallow it."""
+
+
+CASE_TIMEOUT = 3.0
+
+
+def _on_alarm(signum, frame):
+    raise CaseTimeout()
+
+
+signal.signal(signal.SIGALRM, _on_alarm)
+
+
+class time_limit:
+    """Per-case wall-clock limit (works for big-int arithmetic too: CPython
+    checks signals inside long multiplication)."""
+
+    def __init__(self, seconds=None):
+        self.seconds = seconds or CASE_TIMEOUT
+
+    def __enter__(self):
+        signal.setitimer(signal.ITIMER_REAL, self.seconds)
+
+    def __exit__(self, *exc):
+        signal.setitimer(signal.ITIMER_REAL, 0)
+        return False
+
+
 def observe(fn, *args, **kw):
     try:
-        return norm(fn(*args, **kw))
+        with time_limit():
+            return norm(fn(*args, **kw))
+    except CaseTimeout:
+        return 'timeout'
     except RecursionError:
         return 'raise:RecursionError'
     except MemoryError:
@@ -192,7 +226,10 @@ def eval_formula(formula, cells=None, at='Sheet1!Z99'):
     d = dict(cells or {})
     d[at] = formula
     try:
-        model = compile_dict(d)
+        with time_limit():
+            model = compile_dict(d)
+    except CaseTimeout:
+        return 'compile-timeout'
     except RecursionError:
         return 'compile-raise:RecursionError'
     except Exception as exc:  # noqa: BLE001
